@@ -71,7 +71,9 @@ def exc_for(kind, ld):
             # user code that lets a StopIteration escape (next() on an
             # exhausted iterator): inside the pipeline's generators Python
             # turns it into a RuntimeError whose cause is that StopIteration
-            'stop': StopIteration}[kind]
+            'stop': StopIteration,
+            # types that stages use for their own control flow
+            'index': IndexError, 'key': KeyError}[kind]
 
 
 def catch_arg(name, ld):
@@ -224,6 +226,10 @@ def make_body(sc, e, raised_objs):
                 base = ld.new({f'k{i}': i for i in range(n)})
             else:
                 base = ld.new(list(range(n)))
+            if sc.get('dupkeys'):
+                # the same keys twice (keyed iteration is then refused or has to
+                # work without listing the keys up front)
+                base = base.concatenate(base)
             ds = base.map(src_fn)
             try:
                 if entry == 'pf1':
